@@ -4,8 +4,8 @@ CONSTANTS
   NP = 1
   NS = 1
   Cap = 2
-  MaxNow = 4
-  Budget = 1
+  MaxNow = 8
+  Budget = 2
   MaxExt = 4
   MaxSel = 6
   MaxSpur = 0
